@@ -111,6 +111,13 @@ const (
 	kEmptyClose   = "empty-close"   // 200, no Content-Length, Connection: close, headers then end of stream
 	kEmptyGzip    = "empty-gzip"    // 200, Content-Encoding: gzip, a valid gzip member of zero bytes (net/http gunzips transparently)
 
+	// The context of the whole refresh round (the one the caller passes to
+	// Refresh, not the per-download HTTP time-out) ends while this download is
+	// being requested: the harness cancels it, or its deadline expires, and
+	// the fetch fails with the context's error.
+	kCtxCancel   = "ctx-cancel"
+	kCtxDeadline = "ctx-deadline"
+
 	kOversizeChunked    = "oversize-chunked"     // the complete offered version, then padding beyond the limit
 	kOversizeChunkedCut = "oversize-chunked-cut" // padding after the first marker, so that the limit falls inside a later rule of the offered version
 
@@ -229,7 +236,32 @@ func in2(s string, set []string) (ok bool) {
 
 // fetchFaults are the kinds after which no complete body was delivered.
 var fetchFaults = []string{kDial, kTimeout, kTimeoutBody, k404, k500, kEmpty, kOversize, kCut, kChunked,
-	kOversizeChunked, kOversizeChunkedCut, kEmptyChunked, kEmptyClose, kEmptyGzip}
+	kOversizeChunked, kOversizeChunkedCut, kEmptyChunked, kEmptyClose, kEmptyGzip, kCtxCancel, kCtxDeadline}
+
+// roundDeadline is the time-out of the round context in rounds that contain
+// a kCtxDeadline deviation; it is shorter than the per-download time-out, so
+// the round context ends first.
+const roundDeadline = dlTimeout / 2
+
+// roundContext returns the context to pass to the refresh of a round with
+// the given plan and registers its cancel function with the world.  The
+// caller must call cancel after the refresh.
+func (w *world) roundContext(parent context.Context, plan map[string]string) (ctx context.Context, cancel context.CancelFunc) {
+	ctx, cancel = context.WithCancel(parent)
+	for _, k := range plan {
+		if k == kCtxDeadline {
+			cancel()
+			ctx, cancel = context.WithTimeout(parent, roundDeadline)
+
+			break
+		}
+	}
+	w.mu.Lock()
+	w.cancelRound = cancel
+	w.mu.Unlock()
+
+	return ctx, cancel
+}
 
 // kindsFor returns the deviation kinds applicable to a download position.
 func kindsFor(pos string) (kinds []string) {
@@ -252,7 +284,7 @@ func kindsFor(pos string) (kinds []string) {
 // instead of a missing key, the swapped variants other than swap+nourl, the
 // service-index shapes added later) are explored with up to two deviations.
 func coreKind(pos, kind string) (ok bool) {
-	if in2(kind, []string{kOversizeChunkedCut, kEmptyChunked, kEmptyClose, kEmptyGzip}) {
+	if in2(kind, []string{kOversizeChunkedCut, kEmptyChunked, kEmptyClose, kEmptyGzip, kCtxDeadline}) {
 		// Near-duplicates of kOversizeChunked and kEmpty.
 		return false
 	}
@@ -491,6 +523,10 @@ type world struct {
 	// down makes every dial fail.
 	down bool
 
+	// cancelRound cancels the context of the current refresh round, see
+	// [world.roundContext].
+	cancelRound context.CancelFunc
+
 	// chunk, if positive, is the size of the pieces in which answers are
 	// written to the connection (so that a download takes several reads and
 	// therefore several writes to the temporary file).
@@ -526,7 +562,7 @@ func (w *world) transport() (tr *http.Transport) {
 	}
 }
 
-func (w *world) dial(_ context.Context, network, addr string) (c net.Conn, err error) {
+func (w *world) dial(ctx context.Context, network, addr string) (c net.Conn, err error) {
 	host, _, _ := net.SplitHostPort(addr)
 	pos := strings.TrimSuffix(host, domain)
 
@@ -535,7 +571,25 @@ func (w *world) dial(_ context.Context, network, addr string) (c net.Conn, err e
 	kind := w.plan[pos]
 	v := w.version
 	down := w.down
+	cancelRound := w.cancelRound
 	w.mu.Unlock()
+
+	switch kind {
+	case kCtxCancel:
+		// ctx derives from the round context through the request.
+		if cancelRound != nil {
+			cancelRound()
+		}
+		if err = ctx.Err(); err == nil {
+			err = context.Canceled
+		}
+
+		return nil, err
+	case kCtxDeadline:
+		<-ctx.Done()
+
+		return nil, ctx.Err()
+	}
 
 	if down || kind == kDial {
 		return nil, &net.OpError{Op: "dial", Net: network, Err: syscall.ECONNREFUSED}
@@ -760,6 +814,10 @@ type storageParams struct {
 	staleness time.Duration
 	timeout   time.Duration
 
+	// rulesOnly disables the blocked-service filter and the safe search, so
+	// that a round consists of the rule-list index and the rule lists only.
+	rulesOnly bool
+
 	// sizeFactor multiplies the size limits (the kill-point children use
 	// bigger lists so that one download takes several write calls).
 	sizeFactor int
@@ -786,7 +844,7 @@ func newStorage(cacheDir string, p storageParams) (s *filterstorage.Default, err
 			IndexStaleness:      p.staleness,
 			ResultCacheCount:    100,
 			ResultCacheEnabled:  true,
-			Enabled:             true,
+			Enabled:             !p.rulesOnly,
 		},
 		Custom:     &filterstorage.ConfigCustom{CacheCount: 10},
 		HashPrefix: &filterstorage.ConfigHashPrefix{},
@@ -809,7 +867,7 @@ func newStorage(cacheDir string, p storageParams) (s *filterstorage.Default, err
 			RefreshTimeout:   p.timeout,
 			Staleness:        p.staleness,
 			ResultCacheCount: 100,
-			Enabled:          true,
+			Enabled:          !p.rulesOnly,
 		},
 		SafeSearchYouTube: &filterstorage.ConfigSafeSearch{
 			ID:      filter.IDYoutubeSafeSearch,
